@@ -8,7 +8,7 @@ import itertools
 from vlib import Case, hx, parse_val, fmt_val
 
 PROP = "C17"
-PROOF_FILES = ["Properties/C17.v"]
+PROOF_FILES = ["Properties/C17.v", "Properties/ModelTie.v"]
 RULE = ("operation histories over 8 packet kinds (PUSI+payload, continuation, continuation with adaptation field, PUSI with "
         "adaptation field, no payload, PUSI without payload, adaptation field longer than the packet, adaptation field of 183 "
         "bytes = empty payload, and packets of 188 uniformly random bytes) with Bytes() and Packets() observed after every call, Reset at random places, under threshold "
